@@ -26,6 +26,7 @@ package main
 // a wait that is far longer than the delay.
 
 import (
+	"errors"
 	"fmt"
 	"strconv"
 	"strings"
@@ -36,23 +37,75 @@ import (
 )
 
 type WaitScenario struct {
-	Kind          string       `json:"kind"` // canceled | deadline
-	Leaf          *LeafCfg     `json:"leaf,omitempty"`
-	LeafScript    *LeafScript  `json:"leafScript,omitempty"`
-	Batch         *BatchCfg    `json:"batch,omitempty"`
-	BatchScript   *BatchScript `json:"batchScript,omitempty"`
-	Sleeps        [][]int      `json:"sleeps"`        // [item][attempt]: ms the exec callback sleeps before it returns
-	LimitMs       int          `json:"limitMs"`       // 0 = none
-	PromptMs      int          `json:"promptMs"`      // return-after-cancel bound
-	CancelDelayMs int          `json:"cancelDelayMs"` // the cancellation is delivered this long after the preceding attempt(s)
-	WatchMs       int          `json:"watchMs"`       // watchdog
-	Tag           string       `json:"tag"`           // generator class (evidence only)
+	Kind        string       `json:"kind"` // canceled | deadline
+	Leaf        *LeafCfg     `json:"leaf,omitempty"`
+	LeafScript  *LeafScript  `json:"leafScript,omitempty"`
+	Batch       *BatchCfg    `json:"batch,omitempty"`
+	BatchScript *BatchScript `json:"batchScript,omitempty"`
+	Sleeps      [][]int      `json:"sleeps"`   // [item][attempt]: ms the exec callback sleeps before it returns
+	LimitMs     int          `json:"limitMs"`  // 0 = none
+	PromptMs    int          `json:"promptMs"` // return-after-cancel bound
+	// panic family (same scenario shape, fam "panic"): which callback panics ("p", "e<k>", "f", "o") and with what ("string": as the
+	// library's own Must* accessors do; "error": a runtime.Error-like value)
+	PanicAt       string `json:"panicAt,omitempty"`
+	PanicVal      string `json:"panicVal,omitempty"`
+	CancelDelayMs int    `json:"cancelDelayMs"` // the cancellation is delivered this long after the preceding attempt(s)
+	WatchMs       int    `json:"watchMs"`       // watchdog
+	Tag           string `json:"tag"`           // generator class (evidence only)
 }
 
 type WaitObs struct {
 	Trace  []string `json:"trace"`
 	Out    string   `json:"out"`
 	Within bool     `json:"within"`
+}
+
+// addPanic: the same scenario shape and executor, judged by the driver's `panic` family
+func (j *jobList) addPanic(sc WaitScenario) {
+	s := sc
+	j.jobs = append(j.jobs, job{fam: "panic", sc: &s, run: func() any { return execWaitScenario(&s) }})
+}
+
+// genPanic: one run of a single node in which one user callback panics — with a string, as every Must* accessor of the library
+// does, or with an error value. The run must not return at all (the panic propagates to the caller of flyt.Run: outcome "P"), no
+// further callback may be invoked, and in particular the run may not "succeed" with an empty action.
+func genPanic(r *rng, thorough bool, emit func(WaitScenario)) {
+	t := &tokGen{r: r}
+	kinds := leafKinds()
+	reps := 1
+	if thorough {
+		reps = 4
+	}
+	for rep := 0; rep < reps; rep++ {
+		for _, cfg0 := range kinds {
+			for _, N := range []int{1, 2, 3} {
+				cfg := cfg0
+				cfg.Budget, cfg.Wait = N, 0
+				eff := N
+				if !cfg.Retryable {
+					eff = 1
+				}
+				ats := []string{"p", "o", "f"}
+				for k := 0; k < eff; k++ {
+					ats = append(ats, "e"+strconv.Itoa(k))
+				}
+				for _, at := range ats {
+					if (at == "p" && cfg.PrepS == "absent") || (at == "o" && cfg.PostS == "absent") || (at == "f" && cfg.Fb != "custom") ||
+						(at[0] == 'e' && cfg.ExecS == "absent") {
+						continue
+					}
+					f := r.intn(eff + 1) // first succeeding attempt (eff = none succeeds)
+					if at == "f" {
+						f = eff
+					}
+					sc := waitLeafScenario(t, "canceled", cfg, f, make([]int, eff+1), nil, "panic-"+at)
+					sc.PanicAt, sc.PanicVal = at, r.pick([]string{"string", "string", "error"})
+					sc.WatchMs = 5000
+					emit(sc)
+				}
+			}
+		}
+	}
 }
 
 func (j *jobList) addWait(sc WaitScenario) {
@@ -267,6 +320,14 @@ func runWaitOnce(sc *WaitScenario) (res waitRun) {
 	t.w = time.Duration(t.wMs) * time.Millisecond
 	e.nodes[0] = node
 
+	if sc.PanicAt != "" {
+		e.panicAt = sc.PanicAt
+		if sc.PanicVal == "error" {
+			e.panicVal = errors.New("a panic carrying an error value")
+		} else {
+			e.panicVal = "Result.MustString: value is not a string (a panic carrying a string)"
+		}
+	}
 	e.runStore = flyt.NewSharedStore()
 	e.makeCtx(sc.Kind)
 	type runRes struct {
